@@ -31,6 +31,18 @@ FAMILIES = {
             "Bot": ("struct Bot : L, R { char c; };", "struct Bot;", ["L", "R"], []),
             "Holder": ("struct Holder { Bot* b; L l; };", "struct Holder;", ["L"], ["Bot"]),
         }},
+    # --no-recursive-allowlist: types that are used but not allowlisted are not emitted and cannot re-queue their
+    # users; what their users may derive must still not depend on which user is declared first
+    "norecursive": {
+        "lang": "c", "flags": ["--no-recursive-allowlist", "--allowlist-type", "Widget|Gadget|Holder|Gizmo"],
+        "decls": {
+            "Inner": ("struct Inner { void (*cb)(int,int,int,int,int,int,int,int,int,int,int,int,int); float f; };", "struct Inner;", [], []),
+            "Big": ("struct Big { int a[40]; };", "struct Big;", [], []),
+            "Widget": ("struct Widget { struct Inner a; int x; };", "struct Widget;", ["Inner"], []),
+            "Gadget": ("struct Gadget { struct Inner b; char y; };", "struct Gadget;", ["Inner"], []),
+            "Gizmo": ("struct Gizmo { struct Big big; struct Inner *pi; };", "struct Gizmo;", ["Big"], ["Inner"]),
+            "Holder": ("struct Holder { struct Widget w; struct Gadget g; struct Gizmo *z; };", "struct Holder;", ["Widget", "Gadget"], ["Gizmo"]),
+        }},
     "mutual": {
         "lang": "c++", "flags": [],
         "decls": {
